@@ -30,13 +30,14 @@ def rule_declarations(ctx):
     site = ctx.site(b)
     p = printers.evaluate(fx, b)
     seq_ = []
+    norm = lambda t: re.sub(r"\{\w*\}", "{}", t)      # named placeholders carry a local's name, not output
     for conds, loops, item in p.out:
         if item[0] == "write":
-            seq_.append(("write", item[1].split("(")[1].split(",")[0] if item[1].startswith("tff(") else item[1], loops, conds, item))
+            seq_.append(("write", norm(item[1].split("(")[1].split(",")[0] if item[1].startswith("tff(") else item[1]), loops, conds, item))
         else:
             seq_.append(("emit", item[1], loops, conds, item))
     kinds = [s[1] for s in seq_]
-    ref_order = ["{}", "predicate_{i}", "predicate_{i}", "type_symbol_{i}", "type_function_constant_{i}", "symbol_order_{i}", "Display::fmt"]
+    ref_order = ["{}", "predicate_{}", "predicate_{}", "type_symbol_{}", "type_function_constant_{}", "symbol_order_{}", "Display::fmt"]
     ctx.add("DECL", "order", kinds == ref_order, site, "output order: preamble, predicate / symbol / placeholder declarations, symbol order axioms, formulas: %s" % kinds)
     w = {k: [s for s in seq_ if s[1] == k] for k in set(kinds)}
     first = seq_[0][4] if seq_ else None
@@ -55,7 +56,6 @@ def rule_declarations(ctx):
         ev2.loop_args = [("list", (("param", "$i"), ("ctor", "Predicate", (("arity", ("lit", arity)), ("symbol", ("param", "$sym"))))))]
         ev2.function(b)
         return [o[2] for o in ev2.out if o[2][0] == "write" and o[2][1].startswith("tff(predicate_") and not [c for c in o[0] if c[0][0] != "arm"]]
-    norm = lambda t: re.sub(r"\{\w*\}", "{}", t)
     z = declared(0)
     ok = len(z) == 1 and norm(z[0][1]) == "tff(predicate_{}, type, {}: $o).\n" and z[0][2] == (("param", "$i"), ("param", "$sym"))
     for n_ in (1, 2, 3):
@@ -69,18 +69,18 @@ def rule_declarations(ctx):
     ok = ok and src_ok
     ctx.add("DECL", "predicates", ok, site, "p/n is declared `p: (general * .. * general) > $o` with n factors, p/0 as `p: $o`, once per element of self.predicates()")
     SYM = ("each", ("call", "Iterator::enumerate", (("call", "Problem::symbols", (SELF,)),)))
-    sd = w.get("type_symbol_{i}", [])
-    ctx.add("DECL", "symbols", len(sd) == 1 and sd[0][4] == ("write", "tff(type_symbol_{i}, type, {symbol}: symbol).\n", (("proj", SYM, (("tuple", "0"),)), ("proj", SYM, (("tuple", "1"),)))),
+    sd = w.get("type_symbol_{}", [])
+    ctx.add("DECL", "symbols", len(sd) == 1 and (sd[0][4][0], norm(sd[0][4][1]), sd[0][4][2]) == ("write", "tff(type_symbol_{}, type, {}: symbol).\n", (("proj", SYM, (("tuple", "0"),)), ("proj", SYM, (("tuple", "1"),)))),
             site, "every symbolic constant of self.symbols() is declared `c: symbol`")
     FC = ("each", ("call", "Iterator::enumerate", (("call", "Problem::function_constants", (SELF,)),)))
-    fd = w.get("type_function_constant_{i}", [])
-    ok = len(fd) == 1 and fd[0][4][1] == "tff(type_function_constant_{i}, type, {name}: {sort}).\n" and fd[0][4][2][1] == ("ctor", "Format", (("0", ("proj", FC, (("tuple", "1"),))),))
+    fd = w.get("type_function_constant_{}", [])
+    ok = len(fd) == 1 and norm(fd[0][4][1]) == "tff(type_function_constant_{}, type, {}: {}).\n" and fd[0][4][2][1] == ("ctor", "Format", (("0", ("proj", FC, (("tuple", "1"),))),))
     ctx.add("DECL", "function-constants", ok, site, "every placeholder of self.function_constants() is declared under its printed (suffixed) name")
     # used type = declared type for atoms: p(t1..tn) with general-sorted arguments, n = arity of predicate()
     ab = printers.display_impl(fx, "tptp", "Atom")
     ap = printers.evaluate(fx, ab)
-    lits = [item[1] for _, _, item in ap.out if item[0] == "write"]
-    ctx.add("DECL", "atom-usage", lits == ["{predicate}", "({}", ", {term}", ")"], ctx.site(ab), "an atom is printed as symbol(args) with one general-sorted argument per term, bare symbol for no terms: %s" % lits)
+    lits = [norm(item[1]) for _, _, item in ap.out if item[0] == "write"]
+    ctx.add("DECL", "atom-usage", lits == ["{}", "({}", ", {}", ")"], ctx.site(ab), "an atom is printed as symbol(args) with one general-sorted argument per term, bare symbol for no terms: %s" % lits)
     pr = fx.fn("sigma_0::Atom::predicate")
     v = sym.Eval(fx, inline_depth=0).function(pr)
     ok = v == ("ctor", "Predicate", (("arity", ("call", "Vec::len", (("place", "self.terms"),))), ("symbol", ("place", "self.predicate_symbol"))))
@@ -136,7 +136,7 @@ def rule_namespaces(ctx):
     suffixes = {}
     for ty in ("FunctionConstant",):
         t = printers.token_table(printers.evaluate(fx, printers.display_impl(fx, "tptp", ty)).value) or {}
-        suffixes = {k: v[len("{name}"):] for k, v in t.items() if v and v.startswith("{name}")}
+        suffixes = {k: re.sub(r"^\{\w*\}", "", v) for k, v in t.items() if v and re.match(r"\{\w*\}", v)}
     fc = R.seq(user, R.alt(*[R.lit(s) for s in sorted(set(suffixes.values()))])) if suffixes else None
     if fc is None:
         raise AnalysisGap("function constant suffix table not found")
@@ -149,7 +149,7 @@ def rule_namespaces(ctx):
     rn = fx.fn("sigma_0::GeneralTerm::rename_conflicting_symbols")
     v = sym.Eval(fx, inline_depth=0).function(rn)
     fm = [x for x in sym.subterms(v) if isinstance(x, tuple) and x[:1] == ("format",)]
-    guard_ok = len(fm) == 1 and fm[0][1] == "{s}__s" and "IndexSet::contains" in repr(v) and "('arity', ('lit', 0))" in repr(v)
+    guard_ok = len(fm) == 1 and fm[0][1] == "{}__s" and "IndexSet::contains" in repr(v) and "('arity', ('lit', 0))" in repr(v)
     ctx.add("NS", "guard:predicate0-symbol", guard_ok, ctx.site(rn), "a symbol equal to a 0-ary predicate is renamed to `{s}__s` (the only renaming guard)")
     renamed = R.seq(user, R.lit("__s"))
     # is the guard applied on every chain that builds a problem?
